@@ -83,10 +83,17 @@ def rule_mangle(repo: Repo) -> RuleResult:
     return r
 
 
-def rule_round(repo: Repo) -> RuleResult:
-    r = RuleResult("C13.round", "where a value is printed as an integer because round(x, d).is_integer(), the printed integer is int(round(x, d))",
+def rule_round(repo: Repo, rid: str = "C13.round", specs=None) -> RuleResult:
+    r = RuleResult(rid, "where a value is printed as an integer because round(x, d).is_integer(), the printed integer is int(round(x, d))",
                    "up to rounding of coefficients at the requested number of decimals")
-    f = repo.func(f"{NS}::extract_atom")
+    specs = specs or [f"{NS}::extract_atom"]
+    for spec in specs:
+        _round_in(repo, r, rid, repo.func(spec), must_have=(spec.endswith("extract_atom")))
+    r.require_sites(1)
+    return r
+
+
+def _round_in(repo: Repo, r: RuleResult, rid: str, f, must_have: bool) -> None:
     found = False
     for n in ast.walk(f.node):
         if isinstance(n, ast.IfExp):
@@ -101,12 +108,17 @@ def rule_round(repo: Repo) -> RuleResult:
                 if ok:
                     r.ok({"integer_branch": unparse(int_branch, 60)})
                 else:
-                    r.fail(Finding("C13.round", f, "truncation-under-round-guard", f"the branch taken when round(x, d) is an integer prints {unparse(int_branch, 50)}: "
+                    r.fail(Finding(rid, f, "truncation-under-round-guard", f"the branch taken when round(x, d) is an integer prints {unparse(int_branch, 50)}: "
                                    f"int() truncates, so 2.99999 at 2 digits is printed as 2", node=n))
+            elif "is_integer" in test_src:
+                found = True
+                r.site(L.site(f, n, "integer branch"))
+                r.ok({"integer_test": unparse(n.test, 60), "exact": True})
+    if not found and must_have:
+        raise AnalysisError(f"{f.qn}: rounding guard not recognised")
     if not found:
-        raise AnalysisError("extract_atom: rounding guard not recognised")
-    r.require_sites(1)
-    return r
+        r.site(f.qn + " [no integer shortcut]")
+        r.ok({"function": f.qn, "integer_shortcut": None})
 
 
 def rule_atoms(repo: Repo) -> RuleResult:
@@ -192,9 +204,116 @@ def rule_sides(repo: Repo) -> RuleResult:
     return r
 
 
+def rule_eliminate(repo: Repo) -> RuleResult:
+    """equality-based elimination: from (= (op e1 e2) r) the tree method derives `e1 := R`; for every operator the guard admits,
+    op(R, e2) must be identically r (exact rational normal forms over the symbols e1, e2, r)."""
+    from .. import absval as A
+    r = RuleResult("C13.eliminate", "the expression substituted for e1 from (= (op e1 e2) r) satisfies op(R, e2) == r for every operator the guard admits",
+                   "a condition is rewritten only into an equivalent one")
+    f = repo.func("NumericalExpressionTree.extract_eliminated_expressions")
+    p = L.prov(repo, f)
+    # symbols of local names by their position in the copied tree
+    def symbol_of(name_node) -> str:
+        for x in p.trace(name_node):
+            steps = [s for s in x if s.startswith(("attr:children", "item:"))]
+            idx = [s[5:] for s in steps if s.startswith("item:")]
+            if idx == ["0", "0"]:
+                return "e1"
+            if idx == ["0", "1"]:
+                return "e2"
+            if idx == ["1"]:
+                return "r"
+            if idx == ["0"]:
+                return "left"
+        raise AnalysisError(f"extract_eliminated_expressions: {unparse(name_node)} is not a recognised part of the equality")
+
+    def eval_node(e, zero_r: bool):
+        if isinstance(e, ast.Name):
+            sy = symbol_of(e)
+            if sy == "r" and zero_r:
+                return A.num(0)
+            return A.sym(sy)
+        if isinstance(e, ast.Call) and callee_name(e) == "NumericalExpressionTree" and e.args:
+            return eval_node(e.args[0], zero_r)
+        if isinstance(e, ast.Call) and callee_name(e) == "AnyNode":
+            kw = {k.arg: k.value for k in e.keywords}
+            val, ch = kw.get("value"), kw.get("children")
+            if ch is None:
+                if isinstance(val, ast.Constant) and isinstance(val.value, (int, float)):
+                    return A.num(val.value)
+                if isinstance(val, ast.UnaryOp) and isinstance(val.op, ast.USub) and isinstance(val.operand, ast.Constant):
+                    return A.num(-val.operand.value)
+                raise AnalysisError(f"extract_eliminated_expressions: leaf {unparse(e)} not interpreted")
+            if not (isinstance(ch, ast.List) and len(ch.elts) == 2 and isinstance(val, ast.Constant)):
+                raise AnalysisError(f"extract_eliminated_expressions: node {unparse(e, 60)} not interpreted")
+            a, b = eval_node(ch.elts[0], zero_r), eval_node(ch.elts[1], zero_r)
+            return {"+": a + b, "-": a - b, "*": a * b, "/": a / b if val.value == "/" else a}[val.value] if val.value in "+-*/" else None
+        raise AnalysisError(f"extract_eliminated_expressions: {unparse(e, 60)} not interpreted")
+
+    # operators admitted for the left operand
+    admitted = None
+    for n in ast.walk(f.node):
+        if isinstance(n, ast.If) and any(isinstance(s_, ast.Return) and (s_.value is None or (isinstance(s_.value, ast.Constant) and s_.value.value is None)) for s_ in n.body):
+            t = n.test
+            if isinstance(t, ast.Compare) and len(t.ops) == 1 and isinstance(t.left, ast.Attribute) and t.left.attr == "value" and isinstance(t.left.value, ast.Name):
+                try:
+                    which = symbol_of(t.left.value)
+                except AnalysisError:
+                    continue
+                if which != "left":
+                    continue
+                c = t.comparators[0]
+                if isinstance(t.ops[0], ast.NotEq) and isinstance(c, ast.Constant):
+                    admitted = {c.value}
+                elif isinstance(t.ops[0], ast.NotIn) and isinstance(c, (ast.Tuple, ast.List, ast.Set)):
+                    admitted = {x.value for x in c.elts if isinstance(x, ast.Constant)}
+    r.site(f.qn + " [admitted operators]")
+    if not admitted:
+        raise AnalysisError("extract_eliminated_expressions: guard on the left operand's operator not recognised")
+    r.ok({"admitted": sorted(admitted)})
+    # the replacement expression
+    repl = None
+    rets = [x for x in L.func_returns(f) if isinstance(x.value, ast.Tuple) and len(x.value.elts) == 2]
+    if not rets:
+        raise AnalysisError("extract_eliminated_expressions: result tuple not found")
+    elim, rep = rets[0].value.elts
+    def resolve(e):
+        if isinstance(e, ast.Name):
+            defs = [n for n in ast.walk(f.node) if isinstance(n, ast.Assign) and any(isinstance(t, ast.Name) and t.id == e.id for t in n.targets)]
+            if len(defs) == 1:
+                return defs[0].value
+        return e
+    elim_e, rep_e = resolve(elim), resolve(rep)
+    if eval_node(elim_e, False).same(A.sym("e1")) is False:
+        r.fail(Finding("C13.eliminate", f, "eliminated-operand", "the eliminated expression is not the first operand of the left-hand side"))
+    alts = [(rep_e, None)]
+    if isinstance(rep_e, ast.IfExp):
+        zero_test = "== 0" in ast.unparse(rep_e.test) and symbol_of(rep_e.test.left.value if isinstance(rep_e.test.left, ast.Attribute) else rep_e.test.left) == "r"
+        if not zero_test:
+            raise AnalysisError("extract_eliminated_expressions: branch condition of the replacement not recognised")
+        alts = [(rep_e.body, True), (rep_e.orelse, False)]
+    ops = {"+": lambda a, b: a + b, "-": lambda a, b: a - b, "*": lambda a, b: a * b}
+    for op in sorted(admitted):
+        for alt, zero in alts:
+            r.site(f"{f.qn} [op {op!r}, r {'== 0' if zero else 'general'}]")
+            if op not in ops:
+                r.fail(Finding("C13.eliminate", f, f"elimination:{op}", f"operator {op!r} is admitted but no elimination rule is known for it"))
+                continue
+            R = eval_node(alt, bool(zero))
+            lhs = ops[op](R, A.sym("e2"))
+            rhs = A.num(0) if zero else A.sym("r")
+            if lhs.same(rhs):
+                r.ok({"operator": op, "replacement": repr(R), "check": f"({R!r}) {op} e2 == {rhs!r}"})
+            else:
+                r.fail(Finding("C13.eliminate", f, f"elimination:{op}", f"for (= ({op} e1 e2) r) the method substitutes e1 := {R!r}, but ({R!r}) {op} e2 = {lhs!r}, not {rhs!r}: "
+                               f"every inequality rewritten with it changes its meaning"))
+    r.require_sites(3)
+    return r
+
+
 def rules(repo: Repo, tier: str) -> List[RuleResult]:
     env = c12.rule_env(repo)
     env.rule = "C13.env"
     for fd in env.findings:
         fd.rule = "C13.env"
-    return [rule_vocab(repo), rule_mangle(repo), rule_round(repo), rule_atoms(repo), rule_sides(repo), env]
+    return [rule_vocab(repo), rule_mangle(repo), rule_round(repo), rule_atoms(repo), rule_sides(repo), rule_eliminate(repo), env]
